@@ -56,7 +56,10 @@ META = {
 
 # classes/functions whose generated definitions the theorems of Props/C18.v use: a translation failure breaks an obligation
 REQUIRED = ["DTLZ1", "DTLZ2", "DTLZ3", "DTLZ4", "DTLZ7", "ZDT1", "ZDT2", "ZDT3", "ZDT4", "ZDT6", "UF1", "UF2", "UF3", "UF4", "UF7",
-            "_correct_to_01", "_create_A", "_calculate_x", "_concave", "_calculate_f", "_WFG_calculate_f", "_WFG4_shape"]
+            "_correct_to_01", "_create_A", "_calculate_x", "_concave", "_calculate_f", "_WFG_calculate_f", "_WFG4_shape",
+            "_normalize_z", "_s_linear", "_s_multi", "_s_decept", "_b_param", "_subvector", "_r_sum", "_r_nonsep",
+            "_WFG1_t1", "_WFG2_t3", "_WFG4_t1", "_WFG5_t1", "_WFG6_t2", "_WFG7_t1", "_WFG8_t1", "_WFG9_t1", "_WFG9_t2",
+            "WFG4", "WFG5", "WFG6", "WFG7", "WFG8", "WFG9", "UF5", "UF6", "CF1", "CF3"]
 GEN_FILE = os.path.join(C.COQ, "Gen", "Problems.v")
 TOL = 1e-9
 _TR = {}
